@@ -467,6 +467,26 @@ def trampoline_table(w):
                                              if e[0] in ("eval", "tail", "eval-tail-call", "new_child")], "arg2": arg2}))
     except (absint.Stuck, absint.Loop) as e:
         rows.append(("real-body", {"stuck": str(e)}))
+    # the whole path of one tail call with nothing stubbed but the evaluation of the leaves: body = ((OPX ARGX)) in tail position,
+    # OPX evaluates to a second procedure.  Operator and operand are evaluated exactly once each (by whichever of the tail
+    # evaluator / the trampoline does it), in the frame of the first application; then the callee runs as an ordinary application.
+    cenv1, cenv2, caller = Frame(None, "closure-env-1"), Frame(None, "closure-env-2"), Frame(None, "caller-env")
+    sp1 = w.scheme_procedure(w.formals(["a"]), [], [w.call(w.sym("OPX"), [w.sym("ARGX")])])
+    sp2 = w.scheme_procedure(w.formals(["x"]), [], [w.sym("C1")])
+    p1, p2 = w.user(sp1, cenv1), w.user(sp2, cenv2)
+    argx = Tok("value-of", "ARGX")
+    r = Run(w, answers={"OPX": ok(w.procedure_value(p2)), "ARGX": ok(argx)}, follow=[w.asp.name, w.epc.name])
+    try:
+        res = r.run(w.ap, [p1, [Tok("arg", "V1")], caller])
+        frames = [e for e in r.events if e[0] == "new_child"]
+        rows.append(("whole-tail-call", {
+            "result": res, "evals": [(e[1], next((i for i, f in enumerate(frames) if f[1] is e[2]), None)) for e in r.events if e[0] == "eval"],
+            "frames": [(f[2] is cenv1, f[2] is cenv2) for f in frames], "defines": [(e[2], e[3]) for e in r.events if e[0] == "define"],
+            "tails": [e[1] for e in r.events if e[0] == "tail"], "argx": argx,
+            "recursive_applies": len([e for e in r.events if e[0] == "apply"])}))
+    except (absint.Stuck, absint.Loop) as e:
+        evs = [(x[1]) for x in r.events if x[0] == "eval"]
+        rows.append(("whole-tail-call", {"stuck": str(e), "evals_so_far": evs}))
     # a SELF tail call (the loop of the property): same code, same captured environment; whether or not anything else still
     # refers to the frame of the finished turn, the next turn is an ordinary application with a frame of its own
     for count in (1, 2):
@@ -631,13 +651,16 @@ def rule_call_errors(ctx, rule_nonproc, rule_loc=None):
             ])
             if rule_loc and "stuck" not in d:
                 loc = _location_of(res)
-                okl = _loc_ok(loc, d["expr"])
-                ctx.inst(rule_loc, "call/non-procedure-operator/location", {"inside_the_call_form": okl,
+                absent = loc is None or (isinstance(loc, Enum) and loc.variant == 0)
+                # at the operator (the statement says so); absent is acceptable (the failing form's location is supplied: C15-fallback)
+                okl = absent or machine.key_of(loc) == machine.key_of(d["op"][1])
+                ctx.inst(rule_loc, "call/non-procedure-operator/location", {"at_operator_or_absent": okl,
                                                                            "at_operator": loc is not None and machine.key_of(loc) == machine.key_of(d["op"][1])})
                 ctx.oblige(okl)
                 if not okl:
-                    ctx.report(rule_loc, "ProcedureCall/location", "the non-procedure error is located at %r, which is not a location "
-                               "inside the failing call form" % (loc,), mir_where(w.ee))
+                    ctx.report(rule_loc, "ProcedureCall/location", "the non-procedure error is located at %r, not at the operator (%r): with "
+                               "the operator on another line than the opening parenthesis the diagnostic points at the wrong place" % (
+                                   loc, d["op"][1]), mir_where(w.ee))
         if sc == "operand-error":
             v.row("call/operand-error", d, [
                 (d.get("applies") == 0, "the procedure is applied although an operand failed"),
@@ -805,6 +828,51 @@ def rule_application(ctx, rule, aspects):
     return v.decided
 
 
+def body_error_table(w):
+    """apply_procedure on (lambda (a) (define d D) B1 B2) where evaluating one of D / B1 / B2 fails: the application yields that
+    error, and nothing after the failing form is evaluated or bound"""
+    rows = []
+    for failing in ("D", "B1", "B2"):
+        cenv, caller = Frame(None, "closure-env"), Frame(None, "caller-env")
+        sp = w.scheme_procedure(w.formals(["a"]), [("d", w.sym("D"))], [w.sym("B1"), w.sym("B2")])
+        E = Tok("error", "error-of-" + failing)
+        answers = {failing: err(E)}
+        r = Run(w, follow=[w.asp.name], answers=answers, tail_answers={"B2": err(E)} if failing == "B2" else {})
+        try:
+            res = r.run(w.ap, [w.user(sp, cenv), [Tok("arg", "V1")], caller])
+        except (absint.Stuck, absint.Loop) as e:
+            rows.append((failing, {"stuck": str(e)}))
+            continue
+        rows.append((failing, {"result": res, "E": E, "order": [(e[0], e[1] if e[0] in ("eval", "tail") else e[2]) for e in r.events
+                                                                if e[0] in ("eval", "tail", "define")]}))
+    return rows
+
+
+def rule_body_errors(ctx, rule):
+    fb = ctx.fb()
+    t = tables(fb)
+    w = t["w"]
+    if "body-errors" not in t:
+        t["body-errors"] = body_error_table(w)
+    v = Verdict(ctx, rule, mir_where(w.ap))
+    full = [("define", "a"), ("eval", "D"), ("define", "d"), ("eval", "B1"), ("tail", "B2")]
+    for failing, d in t["body-errors"]:
+        key = "body-form-fails/%s" % failing
+        if "stuck" in d:
+            v.row(key, d, [])
+            continue
+        res = d["result"]
+        cut = next(i for i, x in enumerate(full) if x[1] == failing) + 1
+        checks = [
+            (getattr(res, "name", None) == "Err" and contains(res, lambda x: x is d["E"]),
+             "when evaluating %s fails inside a procedure body the application yields %r, expected that error" % (failing, res)),
+            (d["order"] == full[:cut], "when %s fails the body is processed as %s, expected %s and nothing after the failing form "
+             "(every form of a body is evaluated, in order, up to the first failure)" % (failing, d["order"], full[:cut])),
+        ]
+        v.row(key, d, checks)
+    return v.decided
+
+
 def rule_trampoline(ctx, rule, aspects):
     """aspects ⊆ {rebind, arity, env}"""
     fb = ctx.fb()
@@ -814,6 +882,12 @@ def rule_trampoline(ctx, rule, aspects):
     for second, d in t["trampoline"]:
         key = "tail-call/%s" % second
         if "stuck" in d:
+            evs = d.get("evals_so_far") or []
+            if second == "whole-tail-call" and "once" in aspects and (evs.count("OPX") > 1 or evs.count("ARGX") > 1):
+                d = dict(d)
+                d.pop("stuck")
+                v.row(key, d, [(False, "operator / operand of a call in tail position are evaluated more than once (%s)" % evs)])
+                continue
             v.row(key, d, [])
             continue
         if second.startswith("self-tail-call"):
@@ -827,6 +901,18 @@ def rule_trampoline(ctx, rule, aspects):
                      "turn's own frame" % d["define_frames"]),
                     (len(d["defines"]) == 2 and d["defines"][1][1] is d["arg2"], "the second turn does not bind the evaluated argument"),
                 ]
+            v.row(key, d, checks)
+            continue
+        if second == "whole-tail-call":
+            if "once" not in aspects:
+                continue
+            checks = [
+                (sorted(d["evals"]) == [("ARGX", 0), ("OPX", 0)], "operator and operand of a call in tail position are evaluated %s (form, frame of "
+                 "which application); expected each exactly once, in the frame of the running procedure" % d["evals"]),
+                (d["frames"] == [(True, False), (False, True)] and len(d["defines"]) == 2 and d["defines"][1][1] is d["argx"] and d["tails"] == ["C1"],
+                 "after the tail call the callee is not applied to the operand's value in a frame under its own closure environment "
+                 "(frames %s, bindings %s, body %s)" % (d["frames"], d["defines"], d["tails"])),
+            ]
             v.row(key, d, checks)
             continue
         if second == "real-body" and not (set(aspects) & {"rebind", "arity", "env"}):
@@ -954,9 +1040,17 @@ def vector_table(w):
     for name in ("vector_ref", "vector_set"):
         f = fb.find("interpreter::library::native::base::" + name)
         for mutable in (True, False):
-            for k in (-1, 0, 1, 2):
+            for k in (-1, 0, 1, 2, "equal"):
                 e0, e1, newv = Tok("element", "e0"), Tok("element", "e1"), Tok("value", "new")
+                if k == "equal":
+                    # the value stored is EQUAL to what the slot holds (same number) but a different object: the store still has to
+                    # happen (identity of what is stored matters to aliasing), and a literal vector still has to refuse
+                    if name != "vector_set":
+                        continue
+                    mk5 = lambda: w.named(w.val, "Number", [w.named(num, "Integer", [5])])
+                    e0, newv = mk5(), mk5()
                 store = [e0, e1]
+                eq_row, k = (k == "equal"), (0 if k == "equal" else k)
                 vec = w.named(w.val, "Vector", [w.named(vr, "Mutable" if mutable else "Immutable", [store])])
                 idx = w.named(w.val, "Number", [w.named(num, "Integer", [k])])
                 args = [vec, idx] + ([newv] if name == "vector_set" else [])
@@ -964,9 +1058,9 @@ def vector_table(w):
                 try:
                     res = r.run(f, [list(args)])
                 except (absint.Stuck, absint.Loop) as e:
-                    rows.append(((name, mutable, k), {"stuck": str(e)}))
+                    rows.append(((name, mutable, k, eq_row), {"stuck": str(e)}))
                     continue
-                rows.append(((name, mutable, k), {"result": res, "store": list(store), "e0": e0, "e1": e1, "new": newv,
+                rows.append(((name, mutable, k, eq_row), {"result": res, "store": list(store), "e0": e0, "e1": e1, "new": newv,
                                                   "panics": [e for e in r.mc.events if e[0] == "panic"]}))
     return rows
 
@@ -977,10 +1071,10 @@ def rule_vector(ctx, rule):
     if "vector" not in tables(fb):
         tables(fb)["vector"] = vector_table(w)
     decided = 0
-    for (name, mutable, k), d in tables(fb)["vector"]:
+    for (name, mutable, k, eq_row), d in tables(fb)["vector"]:
         f = fb.find("interpreter::library::native::base::" + name)
         v = Verdict(ctx, rule, mir_where(f))
-        key = "%s/%s/index=%d" % (name, "mutable" if mutable else "literal", k)
+        key = "%s/%s/index=%d%s" % (name, "mutable" if mutable else "literal", k, "/value-equal-to-current" if eq_row else "")
         if "stuck" in d:
             v.row(key, d, [])
             continue
@@ -998,7 +1092,7 @@ def rule_vector(ctx, rule):
             if not mutable:
                 checks.append((_err_kind(res, "RequiresMutable") or (not inb and _err_kind(res, "VectorIndexOutOfBounds")),
                                "(vector-set! <literal> %d x) yields %r, expected an error" % (k, res)))
-                checks.append((d["store"] == [d["e0"], d["e1"]], "vector-set! changes a literal vector"))
+                checks.append((len(d["store"]) == 2 and d["store"][0] is d["e0"] and d["store"][1] is d["e1"], "vector-set! changes a literal vector"))
             elif inb:
                 want = [d["new"], d["e1"]] if k == 0 else [d["e0"], d["new"]]
                 checks.append((isinstance(res, Enum) and getattr(res, "name", None) == "Ok", "(vector-set! v %d x) yields %r" % (k, res)))
@@ -1127,8 +1221,17 @@ def tail_nesting_table(w, depth):
     def call(tag):
         return w.call(w.sym("op-" + tag), [w.sym("arg-" + tag)])
 
+    def call2(tag):
+        # the operator is itself an application / a conditional: ((f x) y), ((if t f g) y) are calls in tail position all the same
+        return w.call(w.call(w.sym("f-" + tag), [w.sym("x-" + tag)]), [w.sym("arg-" + tag)])
+
+    def call3(tag):
+        return w.call(w.cond(w.sym("c-" + tag), w.sym("f-" + tag), w.sym("g-" + tag)), [w.call(w.sym("h-" + tag), [w.sym("arg-" + tag)])])
+
     def shapes(d, pfx):
         out = [(call(pfx), [({}, pfx, "call")]), (w.sym(pfx), [({}, pfx, "plain")])]
+        if d <= 1:
+            out += [(call2(pfx), [({}, pfx, "call")]), (call3(pfx), [({}, pfx, "call")])]
         if d > 0:
             subs_c, subs_a = shapes(d - 1, pfx + "c"), shapes(d - 1, pfx + "a")
             t = "t" + pfx
@@ -1146,7 +1249,8 @@ def tail_nesting_table(w, depth):
             try:
                 res = r.run(w.ete, [expr, env])
             except (absint.Stuck, absint.Loop) as e:
-                rows.append({"stuck": str(e), "truths": truths, "leaf": leaf, "kind": kind})
+                rows.append({"stuck": str(e), "truths": truths, "leaf": leaf, "kind": kind,
+                             "events": [(x[0], x[1]) for x in r.events if x[0] in ("eval", "tail", "apply")]})
                 continue
             evs = [(e[0], e[1]) for e in r.events if e[0] in ("eval", "tail", "apply")]
             rows.append({"truths": truths, "leaf": leaf, "kind": kind, "events": evs, "result": res, "env": env})
@@ -1160,6 +1264,16 @@ def rule_tail_nesting(ctx, rule, depth):
     bad = []
     n = 0
     for r in rows:
+        if "stuck" in r and r["kind"] == "call":
+            # the evaluation could not be followed to the end, but what it did before is known: evaluating anything but the tests
+            # on the way to a call in tail position is already the violation
+            tests = {("eval", t) for t in r["truths"]}
+            extra = [x for x in r["events"] if x not in tests]
+            if extra:
+                bad.append("the call `%s` reached under %s: part of it is evaluated by the tail evaluator itself, on the Rust stack (%s)" % (
+                    r["leaf"], r["truths"], extra))
+                stuck.remove(r)
+            continue
         if "stuck" in r or r["kind"] != "call":
             continue
         n += 1
@@ -1167,9 +1281,8 @@ def rule_tail_nesting(ctx, rule, depth):
         tests = {("eval", t) for t in r["truths"]}
         extra = [x for x in r["events"] if x not in tests]
         is_tc = bool(find_enum(res, "TailCall"))
-        carries = contains(res, lambda x: isinstance(x, Enum) and x.variant == w.ev["Symbol"] and x.fields == ["op-" + leaf]) and \
-            contains(res, lambda x: isinstance(x, Enum) and x.variant == w.ev["Symbol"] and x.fields == ["arg-" + leaf]) and \
-            contains(res, lambda x: x is r["env"])
+        has = lambda nm: contains(res, lambda x: isinstance(x, Enum) and x.variant == w.ev["Symbol"] and x.fields == [nm])
+        carries = (has("op-" + leaf) or has("f-" + leaf)) and has("arg-" + leaf) and contains(res, lambda x: x is r["env"])
         if extra or not is_tc or not carries:
             why = ("it is evaluated on the Rust stack (%s)" % extra) if extra else (
                 "no pending TailCall is returned" if not is_tc else "the pending call does not carry its own operator, operands and the current environment")
